@@ -113,8 +113,9 @@ impl World {
         self.content_id(name, &sha256_hex(b))
     }
     fn version_args(&self, v: &Value) -> Vec<String> {
-        vec!["--targets-version".into(), v["tg"].to_string(), "--targets-expires".into(), FAR.into(),
-             "--snapshot-version".into(), v["sn"].to_string(), "--snapshot-expires".into(), FAR.into(),
+        // a different expiration for every role
+        vec!["--targets-version".into(), v["tg"].to_string(), "--targets-expires".into(), "2090-01-03T00:00:00Z".into(),
+             "--snapshot-version".into(), v["sn"].to_string(), "--snapshot-expires".into(), "2090-01-02T00:00:00Z".into(),
              "--timestamp-version".into(), v["ts"].to_string(), "--timestamp-expires".into(), FAR.into()]
     }
     fn signer(&self, role: &str) -> &K {
@@ -225,7 +226,9 @@ fn inspect_meta(w: &World, md: &Path, check_sigs: bool) -> Value {
     let extra = json!({"ts": ts["signed"].get("x-foreign-ts").is_some(), "sn": sn["signed"].get("x-foreign-sn").is_some(), "tg": tg["signed"].get("x-foreign-tg").is_some(),
         "ts_value_kept": ts["signed"].get("x-foreign-ts").map(|v| *v == foreign_value("ts")), "sn_value_kept": sn["signed"].get("x-foreign-sn").map(|v| *v == foreign_value("sn")),
         "tg_value_kept": tg["signed"].get("x-foreign-tg").map(|v| *v == foreign_value("tg"))});
-    json!({"on": true, "roots": roots, "ver": {"ts": tsv, "sn": snv, "tg": tgv}, "tset": tset, "extra": extra, "problems": problems})
+    let day = |d: &Value| d["signed"]["expires"].as_str().unwrap_or("").chars().take(10).collect::<String>();
+    json!({"on": true, "roots": roots, "ver": {"ts": tsv, "sn": snv, "tg": tgv}, "exp": {"ts": day(&ts), "sn": day(&sn), "tg": day(&tg)},
+           "tset": tset, "extra": extra, "problems": problems})
 }
 
 fn foreign_value(r: &str) -> Value {
@@ -395,7 +398,38 @@ async fn run_behaviour(tuftool: &str, c: &Value) -> Value {
             }
             "transfer" => {
                 let kind = cmd["kind"].as_str().unwrap().to_string();
-                let newroot = w.root2[&kind].clone();
+                let mut newroot = w.root2[&kind].clone();
+                if c["tool_roots"] == true {
+                    // the new root is produced the way an operator would: copy, `tuftool root bump-version`,
+                    // exchange the online keys, `tuftool root sign`
+                    let p = w.p(&format!("root2-{kind}-by-tuftool.json"));
+                    std::fs::copy(&w.root1, &p).unwrap();
+                    let ps = p.to_str().unwrap().to_string();
+                    let mut script: Vec<Vec<String>> = vec![vec!["root".into(), "bump-version".into(), ps.clone()]];
+                    if kind == "online" {
+                        for (role, old, new) in [("timestamp", "tsA", "tsB"), ("snapshot", "snA", "snB")] {
+                            script.push(vec!["root".into(), "add-key".into(), ps.clone(), "-k".into(), w.keys[new].1.to_str().unwrap().into(), "-r".into(), role.into()]);
+                            script.push(vec!["root".into(), "remove-key".into(), ps.clone(), w.keys[old].0.keyid.clone()]);
+                        }
+                    }
+                    script.push(vec!["root".into(), "sign".into(), ps.clone(), "-k".into(), w.keys["root"].1.to_str().unwrap().into()]);
+                    let mut failed = None;
+                    for a in &script {
+                        let r = w.tt(a);
+                        if !r.0 {
+                            failed = Some(format!("tuftool {:?} failed: {}", &a[..2], r.1));
+                            break;
+                        }
+                    }
+                    match failed {
+                        None => newroot = p,
+                        Some(f) => {
+                            let obs = project(&w).await;
+                            steps.push(json!({"cmd": cmd, "ok": false, "out": f, "obs": obs}));
+                            continue;
+                        }
+                    }
+                }
                 let old_root = w.cur_root.clone();
                 w.rot = kind;
                 let mut a: Vec<String> = vec!["transfer-metadata".into(), "-o".into(), w.p("repo").to_str().unwrap().into(),
